@@ -21,16 +21,16 @@ CLAIMED = {
          "Seeded exploration of validator sets, rounds/steps and vote multisets; thousands of rounds per minute.", "Committee membership is taken from the implementation's draw (checked by cross-replica equality); the engine loop and gossip are stubbed; validator sets are installed directly in the identity state.", "3 C07"),
  "C08": ("exploration", "deterministic simulation: partition/heal with two certified branches, Byzantine rewriting of certificates and bundles on the wire, real fork resolver; adoption judged by reference certificate predicate and post-adoption equality with the peer",
          "Seeded exploration of partitions; the converse (every valid heavier fork is adopted) is deliberately not demanded.", LEDGER_NOTE + " Downloader.SeekForkedBlocks is replaced by the harness moving BlocksRange bytes and fetching bodies.", "3 C08"),
- "C09": ("fault_enumeration", "deterministic simulation with crash injection: every storage unit of recorded operations (block insertion, reset + re-application, whole fast sync incl. header intake) is a crash point; restart + catch-up vs uncrashed twin; for fast-sync crash points also: resume the fast sync, finish, restart again",
+ "C09": ("fault_enumeration", "deterministic simulation with crash injection: every storage unit of recorded operations (block insertion, reset + re-application, whole fast sync incl. header intake, from a fresh node or from the head an earlier fast sync left) is a crash point; restart + catch-up vs uncrashed twin; for fast-sync crash points also: resume the fast sync, finish, restart again",
          "For each recorded operation the crash points are enumerated completely (every atomic storage unit); which scenarios and operations are recorded is seeded sampling. Second-order crashes are sampled.",
          "The store is modelled as prefix-durable over atomic units (put/delete/batch); LevelDB itself is not exercised. " + LEDGER_NOTE, "3 C09"),
  "C11": ("exploration", "deterministic simulation: stored-diff replay on every replica and height (with rollbacks); late joiner running the real fastSync steps on wire bytes against a Byzantine provider that corrupts the snapshot archive (positions proportional to its length; some runs over 5000-10000 accounts so that archives have several blocks), diffs and certificates",
          "Seeded exploration: each run ends with a fast sync of a fresh node from a peer of the run; refused imports are checked for emptiness of the target key range, accepted ones for exact root, contents and key lookups, and the joiner must then follow the chain.", LEDGER_NOTE + " The fast-sync batch loop/peer selection and kubo's CID verification are stubbed.", "3 C11"),
- "C13": ("exploration", "deterministic simulation: op-by-op comparison of the real copy-on-write store with a reference map (incl. batches left open or discarded); in-run canonical-state and disk-unit invariance around speculative work and read-only RPC queries (real api.BlockchainApi.EstimateRawTx); historical reads vs commit-time records under restarts/rollbacks",
+ "C13": ("exploration", "deterministic simulation: op-by-op comparison of the real copy-on-write store with a reference map (incl. batches left open or discarded); in-run canonical-state and disk-unit invariance around speculative work and read-only RPC queries (real api.BlockchainApi.EstimateRawTx); historical reads (trees and the view's validator registry) vs commit-time records under restarts/rollbacks",
          "Seeded exploration of operation sequences on the component and of ledger histories for the in-run clauses.", LEDGER_NOTE, "3 C13"),
  "C10": ("exploration", "deterministic simulation: live validator view vs fresh Load() after every block on every replica, plus restart/rollback rebuilds; registry vs ledger scan",
          "Seeded exploration of identity-changing histories; comparison covers every public getter incl. committee draws and ordered pool members.", LEDGER_NOTE, "3 C10"),
- "C14": ("exploration", "deterministic simulation: 5-10 tasks (clients, engine, sync toggler, queries, submitters made runnable exactly when a block is inserted) over one real TxPool + chain under a baton scheduler, a second node of the same operator building some blocks from same-nonce variants; every cooperative lock acquisition is a tape-decided scheduling point; candidate-list, retention and removal invariants; dead-lock of the tasks is a violation",
+ "C14": ("exploration", "deterministic simulation: 5-10 tasks (clients, engine, sync toggler, queries, submitters made runnable exactly when a block is inserted) over one real TxPool + chain under a baton scheduler, a second node of the same operator building some blocks from same-nonce variants; one run in three crosses a validation ceremony and the epoch switch (priority ceremony types, next-epoch transactions, free priority transactions and paid transfers of a quarter to a half of the block gas cap); every cooperative lock acquisition is a tape-decided scheduling point; candidate-list, retention and removal invariants; dead-lock of the tasks is a violation",
          "Seeded search over interleavings at lock granularity with exact replay; the data-race clause of the property is NOT decided by this technique (stated in DESIGN 3 C14 L).", "tx keeper persistence off; push tracker loops of the pool not started; candidate lists are taken by the block-inserting task, as the engine does.", "3 C14"),
  "C15": ("exploration", "deterministic simulation: contract-heavy client (5 embedded contracts x 2 generations, 5 bundled WASM contracts, arbitrary methods/arguments/gas), per-transaction application with one real VM per block; receipt vs effect on all balances, stakes, contract stakes and buffered store writes; burns from the environment's own reports",
          "Seeded exploration of programs/inputs in simulated block contexts; the simulation contributes state and block-context variety and the proposer/validator agreement for these blocks.", LEDGER_NOTE, "3 C15"),
@@ -38,7 +38,7 @@ CLAIMED = {
          "Structure-aware mutation in context, not coverage-guided fuzzing: 'for every byte string' is sampled; allocation is measured by TotalAlloc growth and only the 'claims gigabytes' class is flagged; a panic recovered by TxPool.add's own gate counts as a reject.", "libp2p stream replaced by an in-memory byte queue; the consensus loop is replaced by the harness calling the same entry points; Flipper.writeLoop body run synchronously.", "3 C12"),
  "C16": ("exploration", "deterministic simulation of whole validation ceremonies (3-10 replicas, each running the real ValidationCeremony, Flipper and KeysPool for its own identity; simulated users; lossy gossip of flips, keys and packages; restarts; peer re-synchronisation) plus the lottery evaluated as a function over tape-drawn shard layouts under two map seeds; oracle: cross-replica and after-restart equality of the lottery, range / duplicate / quota / non-empty-long-list invariants on what the node hands to its user, assignment <=> key recipient, decryption by exactly the recipients (real packages, real node keys)",
          "The 'for all sizes' part of the property is a pure function of its inputs: it is sampled (0-300 candidates), not proved; the simulator contributes cross-replica agreement under different map seeds, restore after restart, and key delivery under message loss.", "Users, gossip transport and the consensus loop are simulated; identities allocated in genesis have no public key in the state, so key delivery is judged for identities created by invitation + activation.", "3 C16"),
- "C17": ("exploration", "deterministic simulation of whole validation ceremonies: replicas differ in map seed, zone, clock skew, arrival of transactions / keys, restarts inside every phase, absence with catch-up from blocks only, first evaluation at proposal vs validation vs insertion (cache hit), competing block at the finishing height validated first; oracle: every replica accepts the block that finishes the validation (equal roots), equal captured epoch results, and per-identity rules judged from on-chain facts only",
+ "C17": ("exploration", "deterministic simulation of whole validation ceremonies: replicas differ in map seed, zone, clock skew, arrival of transactions / keys, restarts inside every phase, absence with catch-up from blocks only, first evaluation at proposal vs validation vs insertion (cache hit), competing block at the finishing height validated first, evidence and long-answer transactions with payloads made up by a participant that does not run the reference client; oracle: no panic and no allocation out of proportion while the finishing block is built or validated, every replica accepts the block that finishes the validation (equal roots), equal captured epoch results, and per-identity rules judged from on-chain facts only",
          "Decision-boundary score tuples are sampled through drawn user accuracies, not enumerated; 'missed the session' is taken in its narrowest on-chain sense; validations in which nobody is validated (the protocol's fail-safe keeps every identity) are excluded from the per-identity rules.", "Users are simulated (answers against a hidden truth per flip, through the node's own SubmitShortAnswers / SubmitLongAnswers); gossip and the consensus loop are simulated; three goroutines that block on real channels or tickers are replaced by their bodies run after every block.", "3 C17"),
  "C18": ("exploration", "seeded value generation observed at the codecs (zero / nil optionals, maximal integers, empty and long byte strings for ~50 wire and storage types: encode, decode, re-encode, then every exported leaf field changed in turn must change the encoding and, for the six signed types, the recovered signer) plus seam taps over simulated ledger runs with contracts (blocks, transactions, certificates, receipts, identity diffs as they cross the simulated wire, and every raw value of the state and identity trees on the simulated disk)",
          "The weakest use of the technique in this submission and labelled so: the quantifier is over inputs; the simulator contributes only in-context values. Fields that are not encoded on the pinned tree are listed in c18_baseline.json (one legacy field); whether every behaviour-relevant field is encoded is not decided here.", "Part (b) uses the ledger scenario's stubs.", "3 C18"),
